@@ -126,6 +126,10 @@ def replay(case):
     return out
 
 
+def replay_module(job):
+    return [replay(c) for c in job['cases']]
+
+
 def main():
     chk = fw.Check('C12', 'model_checking')
     import extract_schema
@@ -150,18 +154,27 @@ def main():
         chk.note('table of %s does not round-trip in the abstract model (c_children key / c_child_order)' % cid)
     if tab.violated and not bad_tables:
         raise fw.Machinery('table invariants violated but no variant blames a class')
-    for case, out, err in fw.pmap(replay, cases, chunk=128):
-        if err:
-            raise fw.Machinery(err)
-        v = case['v']
-        chk.count(v, nontrivial=True)
-        for p in out['problems']:
-            foreign = v['kind']
-            chk.violation({'cls': v['cls'], 'kind': v['kind'], 'which': v['which']},
-                          '%s (%s %s): %s' % (v['cls'], v['kind'], v['which'], p), {'case': case, 'observed': out})
-        if not out['problems'] and not case['roundTrips']:
-            chk.note('drift: %s %s round-trips in the code but not in the abstract model' % (v['cls'], v['kind']))
-        chk.sample({'variant': v, 'serialised': out.get('text', '')[:200]}, limit=4)
+    # serialisation may depend on what the process has serialised before (class-level caches, registered
+    # prefixes): every module is played in ascending and in descending class order, each in a fresh process pool,
+    # one worker per module so that base and derived classes meet in the same process
+    for order in ('ascending', 'descending'):
+        bymod = {}
+        for c in cases:
+            bymod.setdefault(c['v']['cls'].rsplit('.', 1)[0], []).append(c)
+        jobs = [{'module': m, 'cases': sorted(cs, key=lambda c: json.dumps(c['v'], sort_keys=True), reverse=order == 'descending')}
+                for m, cs in sorted(bymod.items())]
+        for job, outs, err in fw.pmap(replay_module, jobs, chunk=1):
+            if err:
+                raise fw.Machinery(err)
+            for case, out in zip(job['cases'], outs):
+                v = case['v']
+                chk.count(dict(v, order=order), nontrivial=True)
+                for p in out['problems']:
+                    chk.violation({'cls': v['cls'], 'kind': v['kind'], 'which': v['which']},
+                                  '%s (%s %s, %s class order): %s' % (v['cls'], v['kind'], v['which'], order, p), {'case': case, 'observed': out, 'order': order})
+                if not out['problems'] and not case['roundTrips']:
+                    chk.note('drift: %s %s round-trips in the code but not in the abstract model' % (v['cls'], v['kind']))
+                chk.sample({'variant': v, 'serialised': out.get('text', '')[:200]}, limit=4)
     chk.cov['exhaustive'] = chk.tier == 'thorough'
     chk.cov['rule'] = ('variants of Schema.tla for each of the exported classes (nothing set, each attribute, all attributes, each child '
                       'with 1..3 instances, all children, foreign child, foreign attribute, XML-special and non-ASCII text): thorough '
